@@ -882,4 +882,42 @@ theorem dictGet_of_mem (d : Items) (hnd : (keys d).Nodup) (p : PStr × PyVal) (h
       simp only [dictGet, List.lookup, this]
       exact ih (by simpa [keys] using hnd.2) hp
 
+/-! ### histories -/
+
+theorem getElem?_modifyAt {α : Type} (l : List α) (i j : Nat) (f : α → α) :
+    (modifyAt l i f)[j]? = if j = i then l[j]?.map f else l[j]? := by
+  induction l generalizing i j with
+  | nil => simp [modifyAt]
+  | cons a l ih => cases i <;> cases j <;> simp [modifyAt, ih]
+
+theorem length_modifyAt {α : Type} (l : List α) (i : Nat) (f : α → α) : (modifyAt l i f).length = l.length := by
+  induction l generalizing i with
+  | nil => simp [modifyAt]
+  | cons a l ih => cases i <;> simp [modifyAt, ih]
+
+theorem mutateTag_get_other (t : TagAttrs) (k k' : PStr) (op : ListOp) (h : k' ≠ k) :
+    dictGet (mutateTag t k op).items k' = dictGet t.items k' := by
+  unfold mutateTag
+  cases hg : dictGet t.items k with
+  | none => rfl
+  | some v => exact dictGet_set_other _ _ _ _ h
+
+theorem mutateTag_get_self (t : TagAttrs) (k : PStr) (op : ListOp) :
+    dictGet (mutateTag t k op).items k = (dictGet t.items k).map (mutateValue op) := by
+  unfold mutateTag
+  cases hg : dictGet t.items k with
+  | none => simp [hg]
+  | some v => simp [dictGet_set_self]
+
+theorem mutateTag_cls (t : TagAttrs) (k : PStr) (op : ListOp) :
+    (mutateTag t k op).cls = t.cls ∧ (mutateTag t k op).listCls = t.listCls ∧
+    keys (mutateTag t k op).items = keys t.items := by
+  unfold mutateTag
+  cases hg : dictGet t.items k with
+  | none => exact ⟨rfl, rfl, rfl⟩
+  | some v =>
+    refine ⟨rfl, rfl, ?_⟩
+    show keys (dictSet t.items k (mutateValue op v)) = keys t.items
+    rw [keys_dictSet, has_of_get _ _ _ hg]; simp
+
 end BS.Attrs
